@@ -45,7 +45,7 @@ ASSUMPTIONS = [
 ]
 FLOORS = {
     'quick': {'cut_committed': 4000, 'scope:option': 500, 'scope:optional': 200, 'scope:closure-iteration-1': 100,
-              'scope:closure-iteration-n': 200, 'scope:join-after-separator': 200, 'scope:under-lookahead': 150, 'gen_compared': 15000,
+              'scope:closure-iteration-n': 200, 'scope:join-after-separator': 200, 'scope:under-lookahead': 40, 'gen_compared': 15000,
               'metamorphic_checked': 15000, 'variants': 900, 'variants_with_cut_reached_through_include': 25, 'nested_choice_family': 100, 'nested_choice_family:include': 20, 'nested_choice_family:optwrap-include': 10, 'nested_choice_family:la-semfail': 25, 'config:memoization': 100, 'config:prune_memos_on_cut': 100,
               # left-recursive family (measured minima over seeds 0,1,2,3,7,11: 32 / 16 / 348 / 3863 / 1674 / 2004 / 5208 / 827 / 149)
               'lr_family': 24, 'lr_family:shared-prefix': 8, 'lr_family:variants': 250, 'lr:accepted_after_growth': 2000,
